@@ -31,7 +31,7 @@
 EXTENDS Integers, Sequences, FiniteSets, TLC
 
 CONSTANTS
-    IndexReachesKwOnly,   \* deviation (finding F15): the index -> name table of _resolve_args stops only at *args,
+    IndexReachesKwOnly,   \* deviation (finding F16): the index -> name table of _resolve_args stops only at *args,
                           \* so without *args an integer index reaches keyword-only parameters and the **kwargs name
     FuncMutation          \* one named design mutation ("none" in every real cfg); mutation cfgs must be refuted
 
